@@ -409,6 +409,7 @@ def check(ctx):
     okk = len(set(kept)) == 1 and kept[0][0] == "field" and kept[0][2] == 0 and kept[0][1][0] == "field" and kept[0][1][3] == "Ok" and callee_is(peel(kept[0][1][1], ()), "Stack::pop2")
     ctx.check(okk, "R01.3", "Exec::IfElse/true-keeps-the-then-block(top)", ", ".join(short(k, 4) for k in set(kept)), ie.at(),
               bad_detail="when the condition is true IfElse must put back the first (top = then) block of the two it popped; extracted " + ", ".join(short(k, 5) for k in set(kept)))
+    check_common_values(ctx)
     check_constructors(ctx)
     # ---- R01.5 ---------------------------------------------------------------------
     f = ctx.fn("<push::push_vm::push_state::PushState as push::push_vm::State>::run_to_completion")
@@ -556,3 +557,48 @@ def check_constructors(ctx):
         ctx.check(ok, "R01.8", "%s::%s/builds-variant-%s" % (rt["path"].split("::")[-1], name, vname), short(r, 4), fn.at(),
                   bad_detail="constructor %s::%s must build the variant it is named after; extracted %s" % (rt["path"].split("::")[-1], name, short(r, 5)))
     ctx.floor("R01.8", m, 27, "named constructors of instruction enums")
+
+
+def check_common_values(ctx):
+    """values moved by the type-generic instructions (Push, Dup, Swap, IsEmpty, StackDepth, DupBlock)"""
+    I = "push::instruction::Instruction::perform"
+    C = "push::instruction::common::"
+    stack_of = lambda e: callee_is(peel(e, ()), "HasStack::stack", "HasStack::stack_mut") and peel(peel(e, ())[3][0], ()) == ("param", 2)
+    f = ctx.trait_fn(I, C + "push_value::PushValue<T>")
+    ps = return_paths(ctx.paths(f))
+    ok = len(ps) == 1 and match(ps[0].ret, Through(Call("HasStack::with_push", Param(2), Call("Clone::clone", Through(Field(Through(Param(1)), 0)), nargs=1), nargs=2), calls=("MapInstructionError::map_err_into",)))
+    ctx.check(ok, "R01.3", "Push/pushes-a-clone-of-its-literal", short(ps[0].ret, 5) if ps else "-", f.at())
+    for ty, key in ((C + "dup::Dup<T>", "Dup"), ("push::instruction::exec::dup_block::DupBlock", "DupBlock")):
+        f = ctx.trait_fn(I, ty)
+        ps = return_paths(ctx.paths(f))
+        ok = len(ps) == 1 and match(ps[0].ret, Call("PushOnto::push_onto", Call(("Result::cloned", "Result::copied"), Call("Stack::top", stack_of, nargs=1), nargs=1), Param(2), nargs=2))
+        ctx.check(ok, "R01.3", key + "/pushes-a-clone-of-the-top", short(ps[0].ret, 5) if ps else "-", f.at())
+    f = ctx.trait_fn(I, C + "swap::Swap<T>")
+    okp = [p for p in return_paths(ctx.paths(f)) if not is_err_return(p)]
+    ok = len(okp) == 1
+    if ok:
+        pushes = [c for c in okp[0].calls() if callee_is(c, "HasStack::with_push")]
+        pop2 = [c for c in okp[0].calls() if callee_is(c, "Stack::pop2")]
+        ok = len(pushes) == 2 and len(pop2) == 1 and pushes[0][3][1] == ("field", ("field", pop2[0], 0, "Ok"), 0, None) and pushes[1][3][1] == ("field", ("field", pop2[0], 0, "Ok"), 1, None)
+    ctx.check(ok, "R01.3", "Swap/pushes-old-top-then-old-second(second-ends-on-top)", short(okp[0].ret, 4)[:200] if okp else "-", f.at(),
+              bad_detail="Swap must pop (top, second) and push top first, then second, so that the two values change places")
+    f = ctx.trait_fn(I, C + "is_empty::IsEmpty<T>")
+    ps = return_paths(ctx.paths(f))
+    ok = len(ps) == 1 and match(ps[0].ret, Through(Call("HasStack::with_push", Param(2), Call("Stack::is_empty", stack_of, nargs=1), nargs=2), calls=("MapInstructionError::map_err_into",)))
+    if ok:
+        c = [x for x in ps[0].calls() if callee_is(x, "HasStack::stack")][0]
+        t = ctx.F.fns[c[4][0]].blocks[c[4][1]]["term"]
+        ok = (t.get("targs") or [{}, {}])[1].get("s") == "T"
+    ctx.check(ok, "R01.3", "IsEmpty/pushes-is_empty-of-its-own-stack", short(ps[0].ret, 5) if ps else "-", f.at())
+    f = ctx.trait_fn(I, C + "stack_depth::StackDepth<T>")
+    ps = return_paths(ctx.paths(f))
+    ok = len(ps) == 1 and match(ps[0].ret, Through(Call("HasStack::with_push", Param(2), Call("Result::unwrap_or", Call("TryInto::try_into", Call("Stack::size", stack_of, nargs=1), nargs=1), ANY, nargs=2), nargs=2), calls=("MapInstructionError::map_err_into",)))
+    if ok:
+        c = [x for x in ps[0].calls() if callee_is(x, "HasStack::stack")][0]
+        t = ctx.F.fns[c[4][0]].blocks[c[4][1]]["term"]
+        ok = (t.get("targs") or [{}, {}])[1].get("s") == "T"
+    ctx.check(ok, "R01.3", "StackDepth/pushes-size-of-its-own-stack-as-i64", short(ps[0].ret, 6) if ps else "-", f.at())
+    so = ctx.trait_fn("push::push_vm::push_io::HasStdout::stdout", "push::push_vm::push_state::PushState")
+    ps = return_paths(ctx.paths(so))
+    r = peel(ps[0].ret, ()) if len(ps) == 1 else ("unknown",)
+    ctx.check(r[0] == "field" and r[2] == "stdout" and peel(r[1], ()) == ("param", 1), "R01.7", "PushState::stdout()-is-the-output-buffer-field", short(ps[0].ret) if ps else "-", so.at())
